@@ -245,8 +245,9 @@ def run_stream(p, xs, resets=(), seed=0):
     return {"cfg": cfg, "ev": ev, "params": p, "xs": [list(x) for x in xs], "resets": list(resets), "seed": seed}
 
 
-def run_batch(p, batches, setrefs=(), first_is_reference=True, seed=0):
-    """batches: list of lists of integer points; setrefs: positions at which the batch is given to set_reference"""
+def run_batch(p, batches, setrefs=(), first_is_reference=True, seed=0, resets=()):
+    """batches: list of lists of integer points; setrefs: positions at which the batch is given to set_reference;
+    resets: positions before which the user calls reset() (the detector then has no reference: the next batch becomes it)"""
     from menelaus.data_drift import KdqTreeBatch
     lb = p["lbnum"] / p["lbden"]
     det = KdqTreeBatch(alpha=p["alpha"], bootstrap_samples=p["bootstrap_samples"], count_ubound=p["count_ubound"],
@@ -261,10 +262,17 @@ def run_batch(p, batches, setrefs=(), first_is_reference=True, seed=0):
         lo, hi = bracket(ref, p["count_ubound"], lb, len(ref), p["alpha"], p["bootstrap_samples"], s)
         return num(lo), num(hi)
 
+    have_tree = False
     for t, b in enumerate(batches):
+        if t in resets and t > 0:
+            det.reset()
+            have_tree, prev = False, None
+            ev.append({"op": "reset", "total": int(det.total_batches), "since": int(det.batches_since_reset),
+                       "state": st(det.drift_state), "dist": "NA", "c": dict(none), "c0": dict(none)})
         np.random.seed((seed * 7919 + t) % (2 ** 32))
         X = feeder.batch(b)
         if t in setrefs or (t == 0 and first_is_reference):
+            have_tree = True
             det.set_reference(X)
             lo, hi = br(b, seed + t)
             ev.append({"op": "set_reference", "data": b, "total": int(det.total_batches), "since": int(det.batches_since_reset),
@@ -273,7 +281,8 @@ def run_batch(p, batches, setrefs=(), first_is_reference=True, seed=0):
             prev = None
             continue
         was_drift = det.drift_state == "drift"
-        no_tree = len(ev) == 0
+        no_tree = not have_tree
+        have_tree = True
         det.update(X)
         c0 = dict(none)
         if was_drift:
@@ -289,7 +298,7 @@ def run_batch(p, batches, setrefs=(), first_is_reference=True, seed=0):
         prev = b
     cfg = {"kind": "batch", "W": 0, "pers": "0.0", "ub": p["count_ubound"], "lbnum": p["lbnum"], "lbden": p["lbden"]}
     return {"cfg": cfg, "ev": ev, "params": p, "batches": batches, "setrefs": list(setrefs),
-            "first_is_reference": first_is_reference, "seed": seed}
+            "first_is_reference": first_is_reference, "seed": seed, "resets": list(resets)}
 
 
 def bursty_stream(rng, n, d, w):
